@@ -10,6 +10,7 @@ from .exec import Unsupported, Out, NONE_SV
 from .stmts import StmtMixin, Inv, InvCtx
 from .obligations import Obligation
 from . import source
+from . import source
 
 DEFAULT_CFG = dict(version=(3, 12, 1, "final", 0), impl="cpython")
 
@@ -157,8 +158,21 @@ def _explore(unit, par):
             out["error"] = str(e).strip('"')
         else:
             out["crash"] = traceback.format_exc()
-    except Exception:
-        out["crash"] = traceback.format_exc()
+    except Exception as e:
+        # contract code (a clause, an invariant, a setup helper) failed.  On the code the contracts were written and locked
+        # for, that is a defect of the harness (crash, exit 3).  On a function whose source CHANGED since then it usually
+        # means that a ghost value the contract expects (a loop's exit index, a comprehension's filter map) no longer exists:
+        # the contract does not fit the new code - undecided, like any other lost anchor.
+        changed = None
+        try:
+            changed = source.source_changed(unit.func)
+        except Exception:
+            pass
+        if changed:
+            out["error"] = (f"contract anchor lost: contract code for {unit.func} raised {type(e).__name__}: {e} on source that changed "
+                            "since the contracts were locked (a ghost value the contract relies on is no longer produced)")
+        else:
+            out["crash"] = traceback.format_exc()
     if ex is not None:
         out["obls"] = [(o.name, o.cls, o.verdict, o.ms, o.backend, o.model, o.notes, o.func, o.smt2)
                        for o in ex.obls[ex.obls_base:]]
